@@ -1,8 +1,8 @@
-\* C07 design check, thorough: up to 3 legacy prefixes (+ REX)
+\* C07 design check, thorough: up to 2 legacy prefixes (+ REX)
 CONSTANTS
   Dev = "none"
   Modes = {32, 64}
-  MaxPfx = 3
+  MaxPfx = 2
   PfxSeqs = {}
   Hist = FALSE
 INIT Init
